@@ -4,6 +4,7 @@ CONSTANTS
   KORD <- c_KORD5
   GENVALS <- c_GENVALS_sub
   DEVS <- c_DEVS_code
+  UNBOND = 10
   DECI = 1
   PREC = 10
   AMOUNTS = {5, 10, 15}
@@ -18,6 +19,7 @@ CONSTANTS
   NOOPBUDGET = 3
   VSTAKERS = {"s1", "v"}
   PATHS = {"keeper", "pc"}
+  COVER = FALSE
   NONEMPTY = TRUE
   BLOCKW = 4
 INVARIANTS EmitAtDepth
